@@ -784,6 +784,8 @@ pub fn c08_cases(tier: Tier) -> Vec<Case> {
                     ("invalid-regex", "validate(regex = \"(\")".into()),
                     ("invalid-regex", "validate(regex = \"[a-\")".into()),
                     ("invalid-regex", "validate(not_empty, regex = \"a{2,1}\")".into()),
+                    ("invalid-regex", "validate(regex = r\"^\\w{3000}$\")".into()),
+                    ("invalid-regex", "validate(regex = \"^\\\\w{3000}$\", len_char_max = 4000)".into()),
                     ("trait-unsupported-by-inner-type", "derive(Copy, Clone)".into()),
                     ("trait-unsupported-by-inner-type", "derive(IntoIterator)".into()),
                 ]);
@@ -1374,6 +1376,12 @@ pub fn c15_cases(tier: Tier) -> Vec<Case> {
         ("derive(Debug, Default), default = T::default()", "pub struct NAME<T: Default>(T);"),
         ("validate(predicate = |v| !v.is_empty()), derive(Debug, AsRef, Deref, TryFrom)", "pub struct NAME<'a>(&'a [u8]);"),
         ("derive(Debug, TryFrom, From)", "pub struct NAME<T>(T);"),
+        // the per-type `new_unchecked` flag (with and without validation, const_fn)
+        ("validate(greater = 1), derive(Debug), new_unchecked", "pub struct NAME(u8);"),
+        ("validate(finite, less = 9.0), derive(Debug, PartialEq), new_unchecked", "pub struct NAME(f64);"),
+        ("sanitize(with = clamp_i), derive(Debug), new_unchecked", "pub struct NAME(i32);"),
+        ("validate(greater_or_equal = 10), const_fn, new_unchecked, derive(Debug)", "pub struct NAME(i32);"),
+        ("validate(predicate = on_diag), derive(Debug), new_unchecked", "pub struct NAME(Pt);"),
     ] {
         n += 1;
         let name = format!("Ns{n}");
